@@ -31,6 +31,67 @@ EXPECTED_KEYS = {"numpy_binning": "numpy", "pretty_binning": "pretty", "quantile
                  "bayesian_blocks_binning": "blocks", "knuth_binning": "knuth", "scott_binning": "scott", "freedman_binning": "freedman"}
 
 
+def check_binning_copies(ctx, rule, m):
+    BB = m.cls("BinningBase")
+    for c in m.subclasses(BB):
+        cp = c.methods.get("copy")
+        if cp is None:
+            continue
+        foreign = [U(w.stmt)[:70] for st in ast.walk(cp.node) if isinstance(st, ast.stmt) for w in writes_of(st) if w.root != "self" or True]
+        ctx.check(not foreign, rule, f"{c.name}.copy:constructor-only", "state passes through the constructor; nothing is patched onto the copy",
+                  f"{c.name}.copy stores {foreign} - cached representations copied this way go stale when the copy's bins are replaced (slicing)", cp.where)
+    for c in [BB] + m.subclasses(BB):
+        gi = c.methods.get("__getitem__")
+        if gi is None:
+            continue
+        ws = [w for st in ast.walk(gi.node) if isinstance(st, ast.stmt) for w in writes_of(st) if w.root != "self"]
+        okg = all(w.attr == "_bins" for w in ws)
+        fresh = any(isinstance(n, ast.Assign) and U(n.value) in ("self.copy()", "self.as_static()") for n in ast.walk(gi.node)) or not ws
+        ctx.check(okg and fresh, rule, f"{c.name}.__getitem__:fresh-copy", "only `_bins` of a freshly constructed copy is replaced",
+                  f"{c.name}.__getitem__ patches {[U(w.stmt)[:50] for w in ws]} on an object that is not a fresh copy", gi.where)
+
+def check_pretty_factory(ctx, rule, m):
+    """pretty_binning: width from the requested range (else the data extent) / bin_count; delegates coverage to
+    fixed_width_binning with the caller's data and range; integer_binning: half-integer grid."""
+    import ast as _ast
+    from sa.paths import function_paths as _fp, end_kind as _ek
+    from sa.util import U as _U
+    from sa.model import calls_in as _calls, kwarg as _kw
+    pb = m.func("binnings", "pretty_binning")
+    ctx.saw(pb)
+    src = {}
+    for path in _fp(pb.node):
+        if _ek(path) != "return":
+            continue
+        cs = dict((_U(s[1]), s[2]) for s in path if s[0] == "cond")
+        if "range is None" not in cs:
+            continue
+        for s in path:
+            if s[0] == "stmt" and isinstance(s[1], _ast.Assign):
+                t = _U(s[1].targets[0])
+                if t in ("min_", "max_", "(min_, max_)", "min_, max_"):
+                    src.setdefault(cs["range is None"], {})[t] = _U(s[1].value)
+    ok_src = src.get(True, {}).get("min_") == "data.min().item()" and src.get(True, {}).get("max_") == "data.max().item()" \
+        and "range" in (src.get(False, {}).get("min_, max_"), src.get(False, {}).get("(min_, max_)"))
+    ctx.check(ok_src, rule, "pretty_binning:extent", "extent = the explicit range when given, else the data's min / max",
+              f"pretty_binning takes its extent from {src}: an explicit range must win over the data extent (and only then)", pb.where)
+    t = _U(pb.node)
+    ctx.check("raw_width = (max_ - min_) / bin_count" in t and "bin_width = find_pretty_width(raw_width, kind=kind)" in t, rule, "pretty_binning:width",
+              "raw width = extent / bin_count, rounded to a pretty width", "pretty_binning no longer derives the width from extent / bin_count", pb.where)
+    rets = [n.value for n in _ast.walk(pb.node) if isinstance(n, _ast.Return) and isinstance(n.value, _ast.Call)]
+    okr = len(rets) == 1 and _U(rets[0].func) == "fixed_width_binning" and _U(_kw(rets[0], "data")) == "data" and _U(_kw(rets[0], "range")) == "range" \
+        and _U(_kw(rets[0], "bin_width")) == "bin_width" and any(k.arg is None for k in rets[0].keywords)
+    ctx.check(okr, rule, "pretty_binning:delegates", "fixed_width_binning(bin_width=bin_width, data=data, range=range, **kwargs) - the caller's data and range",
+              "pretty_binning does not hand the caller's own `data` and `range` to fixed_width_binning (a substituted range takes the "
+              "range branch, which closes the right edge and skips the extra bin for a maximum lying on an edge)", pb.where)
+    ib = m.func("binnings", "integer_binning")
+    ctx.saw(ib)
+    ti = _U(ib.node)
+    oki = "tuple((r - 0.5 for r in kwargs['range']))" in ti and "bin_shift=0.5" in ti and "align=True" in ti and "bin_width=kwargs.pop('bin_width', 1)" in ti
+    ctx.check(oki, rule, "integer_binning:grid", "bins centred on integers: range shifted by -0.5, shift 0.5, width 1 by default",
+              "integer_binning no longer builds the half-integer grid", ib.where)
+
+
 def run(ctx):
     m = ctx.model
     bn = m.module("binnings")
@@ -172,6 +233,8 @@ def run(ctx):
     ctx.check(order_ok and "raise ValueError(f'Binning {_} not understood.')" in tcb, "C07.b", "calculate_1d_bins:string-dispatch",
               "method names: bin-count rules, then registered binnings, else ValueError; unknown kinds refused", "string / fall-through dispatch changed", cb.where)
 
+    check_pretty_factory(ctx, "C07.b", m)
+
     # ---- C07.c row / column dependence ---------------------------------------------------------------------------------------
     ctx.rule("C07.c", "the (n,2) bins array is used through its columns / full rows; no bare constant-row access in arithmetic; tolerance slots", 6)
     funcs = [f for f in m.all_funcs() if f.module.short in ("binnings", "_bin_utils")]
@@ -279,3 +342,7 @@ def run(ctx):
     # cache coherence of the derived edge representations (shared with C04.a)
     from rules import c04
     c04.check_cache_coherence(ctx, "C07.d", m)
+
+    ctx.rule("C07.f", "binning copies are built by the constructor only: copy() stores nothing on its result, so no stale cache "
+             "(_numpy_bins, _consecutive) travels with a copy that __getitem__ then re-bins", 4)
+    check_binning_copies(ctx, "C07.f", m)
